@@ -131,7 +131,13 @@ def cache_component_js(comp_cls: Type["Component"]) -> None:
     among all instances of the same component. So even if the component is rendered multiple
     times, this JS is loaded only once.
     """
-    if not comp_cls.js or not is_nonempty_str(comp_cls.js) or _is_script_in_cache(comp_cls, "js", None):
+    if not comp_cls.js or not is_nonempty_str(comp_cls.js):
+        return None
+
+    # NOTE: Do not skip merely because the key is present: the entry may have been written by an
+    # earlier definition of the class (module reload, or a redeploy against a persistent cache
+    # backend), in which case the URL would keep serving the old script.
+    if get_script_content("js", comp_cls, None) == comp_cls.js.strip():
         return None
 
     _cache_script(
@@ -191,7 +197,11 @@ def cache_component_css(comp_cls: Type["Component"]) -> None:
     among all instances of the same component. So even if the component is rendered multiple
     times, this CSS is loaded only once.
     """
-    if not comp_cls.css or not is_nonempty_str(comp_cls.css) or _is_script_in_cache(comp_cls, "css", None):
+    if not comp_cls.css or not is_nonempty_str(comp_cls.css):
+        return None
+
+    # NOTE: See `cache_component_js()` - an entry left by an earlier definition of the class is replaced.
+    if get_script_content("css", comp_cls, None) == comp_cls.css.strip():
         return None
 
     _cache_script(
